@@ -14,7 +14,8 @@
 (*                                                                         *)
 (* Not promised by the statement, hence accepted either way (the list must *)
 (* stay as it is): remove/replace of an absent value, append_newline after *)
-(* a newline/comment.  Leaving the with-block may raise ValueError only    *)
+(* a newline/comment; what is written for an EMPTY list (the code normally  *)
+(* refuses).  Leaving the with-block may raise ValueError only    *)
 (* when the list is empty or ends in a comment line, and then the document *)
 (* must still hold the saved list.                                         *)
 (***************************************************************************)
@@ -52,7 +53,9 @@ TStep == /\ l <= Len(Tr.events)
                                         ELSE /\ e.res = "ValueError" /\ CloseMayRefuse
                                              /\ vals' = saved /\ tail' = "none" /\ res' = e.res /\ UNCHANGED saved
             /\ res' = e.res              \* the call returned / raised what the reference says
-            /\ e.obs = vals'             \* and the code shows the reference list
+            /\ \/ e.obs = vals'          \* and the code shows the reference list
+               \/ e.op = "close" /\ e.res = "ok" /\ vals = <<>>     \* (writing an EMPTY list is unspecified)
+            /\ (e.op = "close" /\ vals # <<>>) => e.read = "ok"
             /\ e.doc = "ok"              \* and nothing else in the document moved
          /\ l' = l + 1 /\ UNCHANGED tid
          /\ (Diag => PrintT(<<"AT", tid, l>>))
